@@ -114,7 +114,8 @@ def rebuild_unmarshal(spec, x, mat):
         for name, val in items:
             if name in fields:
                 f = fields[name]
-                ann = typing.get_type_hints(cls)[name] if hasattr(cls, "__annotations__") else member_ann(f["t"], mat)
+                hints_ = typing.get_type_hints(cls) if hasattr(cls, "__annotations__") else {}
+                ann = hints_[name] if name in hints_ else member_ann(f["t"], mat)   # (fields declared by the constructor's signature only)
                 kwargs[name] = _call(tl.unmarshaller(ann), val)
         return cls(**kwargs)
     raise ValueError(k)
@@ -140,7 +141,7 @@ def rebuild_marshal(spec, v, mat):
             if td and f["n"] not in v:
                 continue
             val = v[f["n"]] if td else getattr(v, f["n"])
-            out[f["n"]] = _call(tl.marshaller(hints[f["n"]]), val)
+            out[f["n"]] = _call(tl.marshaller(hints[f["n"]] if f["n"] in hints else member_ann(f["t"], mat)), val)
         return out
     raise ValueError(k)
 
